@@ -110,7 +110,7 @@ class FA:
         return self.func.site(node)
 
 
-def expand(expr, fa, depth=4, calls=False):
+def expand(expr, fa, depth=4, calls=False, stop=()):
     """A copy of expr in which every name that has exactly one reaching plain definition is replaced by that definition (recursively):
     `found = key in table; if found:` reads as `if key in table:`.  The copy is not part of the analysed tree; use it for matching only."""
     from .astutil import clone
@@ -119,6 +119,8 @@ def expand(expr, fa, depth=4, calls=False):
         if d <= 0:
             return e
         if isinstance(e, ast.Name) and isinstance(e.ctx, ast.Load):
+            if e.id in stop:
+                return e
             v = fa.resolve(e)
             if v is not None and ((isinstance(v, ast.Call) and isinstance(v.func, ast.Name) and v.func.id in ('list', 'dict', 'set') and not v.args)
                                   or (isinstance(v, (ast.List, ast.Dict, ast.Set)) and not getattr(v, 'elts', getattr(v, 'keys', None)))):
